@@ -40,12 +40,13 @@ FILES = {
     "ART1": "artlib/elementary/ART1.py",
     "ART2A": "artlib/elementary/ART2.py",
     "HypersphereART": "artlib/elementary/HypersphereART.py",
+    "EllipsoidART": "artlib/elementary/EllipsoidART.py",
 }
 FUNCS = ["category_choice", "match_criterion", "update", "new_weight"]
-EXTRA = {"HypersphereART": ["category_distance"]}
+EXTRA = {"HypersphereART": ["category_distance"], "EllipsoidART": ["category_distance"]}
 
 # arguments that are vectors; everything read from params / cache is a scalar
-VECTOR_ARGS = {"i", "w", "centroid", "data", "x", "y"}
+VECTOR_ARGS = {"i", "w", "centroid", "major_axis", "data", "x", "y"}
 
 
 def find_function(tree: ast.Module, cls: str, fn: str) -> ast.FunctionDef:
@@ -158,6 +159,12 @@ def tr_expr(e: ast.AST, c: Ctx) -> tuple[str, str]:
                 if tl != "N":
                     raise Unsupported("slice bound")
                 return f"(List.drop {l_} {v})", "V"
+            if (lo is not None and isinstance(hi, ast.UnaryOp) and isinstance(hi.op, ast.USub)
+                    and isinstance(hi.operand, ast.Constant) and hi.operand.value == 1):
+                l_, tl = tr_expr(lo, c)
+                if tl != "N":
+                    raise Unsupported("slice bound")
+                return f"(List.dropLast (List.drop {l_} {v}))", "V"
             raise Unsupported("slice form")
         if isinstance(s, ast.UnaryOp) and isinstance(s.op, ast.USub) and isinstance(s.operand, ast.Constant) and s.operand.value == 1:
             return f"(List.getLastD {v} 0)", "S"
@@ -181,7 +188,8 @@ def tr_expr(e: ast.AST, c: Ctx) -> tuple[str, str]:
         if f == "np.concatenate":
             args = []
         elif f == "self.category_distance":
-            args = [tr_expr(a, c) for a in e.args[:2]]    # (i, centroid, radius, params): radius/params unused by the body
+            # Hypersphere: (i, centroid, radius, params) -> body uses i, centroid;  Ellipsoid: (i, centroid, major_axis, params)
+            args = [tr_expr(a, c) for a in (e.args[:3] if c.cls == "EllipsoidART" else e.args[:2])]
         else:
             args = [tr_expr(a, c) for a in e.args]
         if e.keywords:
@@ -229,9 +237,16 @@ def tr_expr(e: ast.AST, c: Ctx) -> tuple[str, str]:
                 raise Unsupported("np.concatenate of non-vectors")
             return "(" + " ++ ".join(p for p, _ in parts) + ")", "V"
         if f == "self.category_distance":
-            # (i, centroid, radius, params) -> scalar; inlined as a call of the generated definition
+            # -> scalar; a call of the generated definition of the same class
             c.uses_sqrt = True
+            if c.cls == "EllipsoidART":
+                if "mu" not in c.params:
+                    c.params.append("mu")
+                return f"(category_distance sqrt {lean_name('mu')} {args[0][0]} {args[1][0]} {args[2][0]})", "S"
             return f"(category_distance sqrt {args[0][0]} {args[1][0]})", "S"
+        if f == "np.zeros_like":
+            need("V")
+            return f"(List.map (fun _ => (0 : α)) {args[0][0]})", "V"
         raise Unsupported(f"call {f}")
     raise Unsupported(f"expression {type(e).__name__}: {ast.unparse(e)}")
 
@@ -248,6 +263,13 @@ def tr_cond(e: ast.AST, c: Ctx) -> str:
         return f"{a} {op} {b}"
     if isinstance(e, ast.UnaryOp) and isinstance(e.op, ast.Not):
         return f"¬ ({tr_cond(e.operand, c)})"
+    if isinstance(e, ast.BoolOp) and isinstance(e.op, ast.And):
+        return " ∧ ".join(f"({tr_cond(v, c)})" for v in e.values)
+    if (isinstance(e, ast.Call) and isinstance(e.func, ast.Attribute) and e.func.attr == "any" and not e.args):
+        v, tv = tr_expr(e.func.value, c)
+        if tv != "V":
+            raise Unsupported(".any() of a non-vector")
+        return f"(List.any {v} (fun t => t != 0)) = true"
     raise Unsupported(f"condition {ast.unparse(e)}")
 
 
